@@ -90,7 +90,7 @@ def gen_hop_url(rng, host=None, scheme='http'):
 
 
 # what a hostile server may put after 'sidN=' (the Set-Cookie line itself is one header line)
-COOKIE_VALUES = [None, None, None, 'a b', 'a\tb', 'x"y', '"q q"', '\xe9', 'a,b', '%0D%0AInjected: 1', 'a\x0bInjected: 1', 'a\x0cb', 'a\x7fb', '=', '',
+COOKIE_VALUES = [None, None, None, 'k' * 600, 'w-' * 520, 'word ' * 230, 'a b', 'a\tb', 'x"y', '"q q"', '\xe9', 'a,b', '%0D%0AInjected: 1', 'a\x0bInjected: 1', 'a\x0cb', 'a\x7fb', '=', '',
                  'a\rInjected: 1', 'v; Injected', 'x' * 5000, 'a\x85b', 'a\x1cb']
 
 
@@ -103,7 +103,10 @@ def gen_case(rng):
         hops.append({'url': gen_hop_url(rng, scheme='https' if proxy == 'tunnel' else 'http'), 'code': rng.choice(REDIRECT_CODES), 'set_cookie': rng.random() < 0.4,
                      'location_style': rng.choice(['absolute', 'absolute', 'relative-if-same-host', 'raw']),
                      'cookie_value': rng.choice(COOKIE_VALUES)})
-    case = {'hops': hops, 'credentials': None, 'referer': rng.choice([None, 'http://a.test/from page', 'https://s.test/secret']),
+    case = {'hops': hops, 'credentials': None, 'referer': rng.choice([None, 'http://a.test/from page', 'https://s.test/secret',
+                                                                     # field values of a kilobyte and more (a long parent URL)
+                                                                     'http://a.test/catalogue/section-' + '-'.join('part%d' % i for i in range(260)),
+                                                                     'http://a.test/' + 'x' * 1020, 'http://a.test/?q=' + 'a b ' * 400]),
             'method': 'GET', 'challenge': False, 'preset_cookie': rng.random() < 0.5, 'proxy': proxy}
     for h in hops:
         m = re.match(r'^\w+://(b\.test|c\.test):', h['url'])
@@ -120,6 +123,9 @@ def gen_case(rng):
         # sent only after a 401 challenge
         case['credential_mode'] = rng.choice(['url', 'login'])
         case['challenge'] = case['credential_mode'] == 'login'
+        if case['credential_mode'] == 'url' and n_hops >= 2 and rng.random() < 0.4:
+            # a later hop (possibly another host) answers its first request with a challenge of its own
+            case['late_challenge'] = rng.randrange(1, n_hops)
     return case
 
 
@@ -200,6 +206,10 @@ def run_case(case, part):
                     if h.get('cookie_value') is not None:
                         value = h['cookie_value']
                     headers.append(('Set-Cookie: sid%d=%s; Path=/' % (cookie_serial, value)).encode('latin-1'))
+                if case.get('late_challenge') == i:
+                    peer.responses.append({'pieces': [b'HTTP/1.1 401 Unauthorized\r\nWWW-Authenticate: Basic realm="later"\r\n'
+                                                      b'Content-Length: 0\r\n\r\n'], 'then': 'keep'})
+                    expected.append({'info': info, 'kind': 'challenge'})
                 if i == 0 and case['challenge'] and case['credentials']:
                     peer.responses.append({'pieces': [b'HTTP/1.1 401 Unauthorized\r\nWWW-Authenticate: Basic realm="r"\r\n'
                                                       b'Content-Length: 0\r\n\r\n'], 'then': 'keep'})
@@ -409,7 +419,10 @@ def run_case(case, part):
                         part.count('cookies_to_own_host')
             if n == 'referer' and v.startswith('https://') and info.scheme == 'http':
                 part.count('https_referer_on_http_request')
-    if len(reqs) < len(expected) and not outcome.get('error'):
+    if case.get('late_challenge') is not None:
+        # (a challenge for which the client has no credentials ends the visit there: fewer requests than hops is expected)
+        part.count('chains_with_a_challenge_on_a_later_hop')
+    elif len(reqs) < len(expected) and not outcome.get('error'):
         part.violation('fewer-requests-than-hops/' + cls, {'got': len(reqs), 'expected': len(expected)}, replay)
 
 
